@@ -121,12 +121,14 @@ def run(c):
     mc2 = "MC_Hardfork_big.cfg" if thorough else "MC_Hardfork.cfg"
     g1 = "Gen_Commitments_big.cfg" if thorough else "Gen_Commitments.cfg"
 
+    JOPTS = ["-XX:ParallelGCThreads=2"]      # small models: do not let every JVM start one GC thread per core
+
     def gen_commit():
-        g = vlib.tlc(SPEC_DIR, "MC_Commitments", g1, os.path.join(c.work, "gen1"), workers=1, timeout=2400)
+        g = vlib.tlc(SPEC_DIR, "MC_Commitments", g1, os.path.join(c.work, "gen1"), workers=1, timeout=2400, heap="2g", java_opts=JOPTS)
         return g, (commit_input(vlib.parse_transitions(g.out)) if g.ok else None)
 
     def gen_hardfork():
-        g = vlib.tlc(SPEC_DIR, "MC_Hardfork", "Gen_Hardfork.cfg", os.path.join(c.work, "gen2"), workers=1, timeout=2400)
+        g = vlib.tlc(SPEC_DIR, "MC_Hardfork", "Gen_Hardfork.cfg", os.path.join(c.work, "gen2"), workers=1, timeout=2400, heap="2g", java_opts=JOPTS)
         return g, (hardfork_input(vlib.parse_transitions(g.out)) if g.ok else None)
 
     def go(pkg, run, env, timeout):
@@ -170,9 +172,13 @@ def run(c):
 
     t_a = bg("commit", commit_side)
     t_b = bg("hardfork", hardfork_side)
-    t_m1 = bg("mc1", lambda: vlib.tlc(SPEC_DIR, "MC_Commitments", mc1, os.path.join(c.work, "mc1"), workers=3, timeout=2400))
-    t_m2 = bg("mc2", lambda: vlib.tlc(SPEC_DIR, "MC_Hardfork", mc2, os.path.join(c.work, "mc2"), workers=3, timeout=2400))
-    threads = [t_a, t_b, t_m1, t_m2]
+    # the design-level runs do not feed anything: they follow one another on a third thread
+    def design():
+        m1 = vlib.tlc(SPEC_DIR, "MC_Commitments", mc1, os.path.join(c.work, "mc1"), workers=2, timeout=2400, heap="3g", java_opts=JOPTS)
+        m2 = vlib.tlc(SPEC_DIR, "MC_Hardfork", mc2, os.path.join(c.work, "mc2"), workers=2, timeout=2400, heap="3g", java_opts=JOPTS)
+        return m1, m2
+    t_m = bg("mc", design)
+    threads = [t_a, t_b, t_m]
 
     def absorb(runs):
         for name, (rc, output, o, wall) in runs:
@@ -201,8 +207,9 @@ def run(c):
         absorb(runs2)
 
         # ---- 3. the design-level runs
-        c.require_ok(need("mc1", t_m1), "Commitments design: required fields committed, signing digests, padding-only root collisions, storage covers commitment, round trips (%s)" % mc1)
-        c.require_ok(need("mc2", t_m2), "Hardfork design: version monotone, stable across accepted restarts, receipt format stable (%s)" % mc2)
+        m1, m2 = need("mc", t_m)
+        c.require_ok(m1, "Commitments design: required fields committed, signing digests, padding-only root collisions, storage covers commitment, round trips (%s)" % mc1)
+        c.require_ok(m2, "Hardfork design: version monotone, stable across accepted restarts, receipt format stable (%s)" % mc2)
         c.exhaustive = True
         c.extra["exhaustive_note"] = ("exhaustive over the abstract models: %d (kind, shape, field) mutations, %d lists, %d stored containers, %d chain ids, "
                                       "%d restart transitions x %d height maps; SAMPLED: field contents, long lists (%d), genesis records (%d), the random restart run"
